@@ -18,6 +18,7 @@
 package node_manager
 
 import (
+	"crypto/sha256"
 	"encoding/hex"
 	"fmt"
 	"github.com/polynetwork/poly/common"
@@ -254,6 +255,8 @@ func UnRegisterCandidate(native *native.NativeService) ([]byte, error) {
 		return utils.BYTE_FALSE, fmt.Errorf("unRegisterCandidate, peerPubkey format error: %v", err)
 	}
 	native.GetCacheDB().Delete(utils.ConcatKey(contract, []byte(PEER_APPLY), peerPubkeyPrefix))
+	// approvals collected for the withdrawn application must not count for a later one
+	deleteConsensusSigns(native, sha256.Sum256(append([]byte(APPROVE_CANDIDATE), []byte(params.PeerPubkey)...)))
 	native.AddNotify(
 		&event.NotifyEventInfo{
 			ContractAddress: utils.NodeManagerContractAddress,
